@@ -339,3 +339,59 @@ func truncate(s string, n int) string {
 	}
 	return s
 }
+
+// mutateStream damages an exported log stream the way mutateBody damages a request body: one or two of a line
+// dropped, repeated, moved, or type-confused / emptied at a random position of its JSON tree; in two runs of three
+// the hashes are then recomputed so that the damage is met by the import itself and not by the hash check.
+func mutateStream(r *RNG, stream string) string {
+	var lines []string
+	for _, l := range strings.Split(stream, "\n") {
+		if strings.TrimSpace(l) != "" {
+			lines = append(lines, l)
+		}
+	}
+	if len(lines) == 0 {
+		return stream
+	}
+	for i, n := 0, 1+r.Intn(2); i < n && len(lines) > 0; i++ {
+		k := r.Intn(len(lines))
+		switch r.Intn(10) {
+		case 0:
+			lines = append(lines[:k], lines[k+1:]...)
+		case 1:
+			lines = append(lines[:k+1], append([]string{lines[k]}, lines[k+1:]...)...)
+		case 2:
+			j := r.Intn(len(lines))
+			lines[k], lines[j] = lines[j], lines[k]
+		default:
+			lines[k] = mutateBody(r, lines[k])
+		}
+	}
+	out := strings.Join(lines, "\n") + "\n"
+	if r.Chance(0.66) {
+		out = rehashExport(out)
+	}
+	return out
+}
+
+func init() {
+	// C38, third profile: the body of POST /logs/import is client input too. A valid export of a ledger with
+	// transactions, reverts and metadata writes is damaged line by line and imported into an empty ledger.
+	// Oracle: 204 or a well-formed 4xx; never a 5xx, a recovered panic or a dead process. (Import commits log by
+	// log by design, so what a refused import leaves behind is not judged here - C11 / C12 / C16 judge the copy.)
+	register(Profile{Property: "C38", Name: "import-streams", Gen: func(r *RNG, seed uint64, tier string) (*Scenario, *ExploreCfg) {
+		sc := &Scenario{Property: "C38", Profile: "import-streams", Knobs: randomKnobs(r), Checks: []string{"no-5xx-without-fault", "no-leaked-locks"}, Params: map[string]string{"lenient_reads": "1"}}
+		g := &gen{r: r, sc: sc}
+		feats := ledgerFeatures(sc.Knobs)
+		sc.Setup = []Op{{ID: g.id("s"), Kind: KCreateLedger, Ledger: "src", Feats: feats}}
+		sc.Setup = append(sc.Setup, g.historyOps("src", 3+r.Intn(6), r.Chance(0.25))...)
+		sc.Setup = append(sc.Setup, Op{ID: g.id("s"), Kind: KExport, Ledger: "src"})
+		nc := 1 + r.Intn(2)
+		for c := 0; c < nc; c++ {
+			dst := fmt.Sprintf("d%d", c)
+			sc.Setup = append(sc.Setup, Op{ID: g.id("s"), Kind: KCreateLedger, Ledger: dst, Feats: feats})
+			sc.Clients = append(sc.Clients, []Op{{ID: fmt.Sprintf("c%d.0", c), Kind: KImport, Ledger: dst, From: "src", ImportMutate: 1 + r.Uint64()>>1, Chunked: Pick(r, []int{64, 4096, 1 << 20})}})
+		}
+		return sc, defaultExplore(seed, 0, 0)
+	}})
+}
